@@ -30,13 +30,25 @@ def copText : COp → Str
   | .eq => "==".toList | .ne => "!=".toList | .lt => "<".toList
   | .le => "<=".toList | .gt => ">".toList | .ge => ">=".toList
 
+/-- `FloatLiteral.__str__`: `repr(value).lower()`, except that an infinity (a literal too big for a double, like
+`1e400`) is written as a number that reads back as that infinity, and a repr with a positive exponent and no `.`
+(`1e+16`, which would read back as an INTEGER literal) gets `.0` after its mantissa -/
+def strFloat (x : Num) : Str :=
+  if x.d = 0 then (if x.n < 0 then "-1e400".toList else "1e400".toList) else
+  let s := Py.reprFloat x
+  let mant := s.takeWhile (fun c => c != 'e')
+  let rest := s.drop mant.length
+  match rest with
+  | 'e' :: '+' :: _ => if mant.contains '.' then s else mant ++ ".0".toList ++ rest
+  | _ => s
+
 /-- `FilterExpressionLiteral.__str__` and its overrides -/
 def strLit : Json → Str
   | .null => "null".toList
   | .bool true => "true".toList
   | .bool false => "false".toList
   | .str s => canonicalString s
-  | .num x => if x.flt then Py.reprFloat x else Py.reprInt x.n
+  | .num x => if x.flt then strFloat x else Py.reprInt x.n
   | _ => "<non-literal>".toList
 
 def joinSep (sep : Str) : List Str → Str
